@@ -12,7 +12,8 @@ Inductive case_t :=
 | KS (fr to : list Z) (obsC : list (list frac))    (* coeff[lay][li] *)
 (* interpDimension with an N-D (per-column) coordinate: per column (in processing order) the
    source levels, the target levels and, per interpolated variable, an optional tag (a, b)
-   meaning data = a * source + b, the data and the library's output *)
+   meaning data = a * source + b, the data and the library's output (integer-typed variables
+   come out as double, like every other interpolated variable) *)
 | KN (extrap : bool) (cols : list (list Z * list Z * list (option (Z * Z) * list Z * list frac))).
 
 Definition feq (n d : Z) (f : frac) : bool := (0 <? snd f) && (n * snd f =? fst f * d).
